@@ -21,7 +21,7 @@ THEOREMS = [N + t for t in [
     "real_on_complex_by_parts", "blocked_apply_slices", "pot_apply_linear",
 ]] + ["BemppVerif.C15." + t for t in ["blocked_matvec_eq_dense", "blocked_matmat_eq_dense",
                                       "blocked_matmat_is_columnwise_matvec", "generalized_matmat_eq_dense",
-                                      "blocked_ctor_dims_sound"]]
+                                      "blocked_ctor_dims_sound", "blocked_matvec_eq_dense_of_index"]]
 PARTIAL = {}
 TRUSTED = [
     "hand model lean/BemppVerif/Model/Alg.lean of the operator algebra (class dispatch, laziness as carried weak-form "
